@@ -426,12 +426,11 @@ fn main() {
     let args = Args::parse();
     let mut rng = Rng::new(args.seed);
     let mut w = CaseWriter::new(&args.dir, "actor");
-    let rt = tokio::runtime::Builder::new_current_thread()
-        .enable_all()
-        .start_paused(true)
-        .build()
-        .unwrap();
-    rt.block_on(async {
+    // Cases are generated first and executed in chunks, each chunk on a runtime of its own: the
+    // tasks a case leaves behind (purge tasks, actors of stopped nodes) die with their runtime
+    // instead of piling up over a million cases.
+    let mut cases: Vec<(Vec<u64>, Vec<String>)> = Vec::new();
+    {
         if let Some(path) = &args.replay {
             for line in std::fs::read_to_string(path).unwrap().lines() {
                 let toks: Vec<&str> = line.split_whitespace().collect();
@@ -445,10 +444,9 @@ fn main() {
                     .map(hx)
                     .collect();
                 let t: Vec<String> = toks[2..].iter().map(|s| s.to_string()).collect();
-                run_case(&mut w, &probes, &t).await;
+                cases.push((probes.to_vec(), (&t).to_vec()));
             }
-            return;
-        }
+        } else {
         let base = 80_000_000u64;
         let keys = [1u64, 2];
         // stamps: two origins, same-instant tie, and one more than a period later
@@ -463,7 +461,7 @@ fn main() {
         let probes: Vec<u64> = stamps.to_vec();
         let mut n_ex = 0u64;
         for a in &alphabet {
-            run_case(&mut w, &probes, &[a.clone(), "R".into()]).await;
+            cases.push((probes.to_vec(), (&[a.clone(), "R".into()]).to_vec()));
             n_ex += 1;
         }
         // length 2 and 3: the second/third request from a reduced alphabet (incl. purge, restart)
@@ -476,7 +474,7 @@ fn main() {
             .collect();
         for a in &alphabet {
             for b in &second {
-                run_case(&mut w, &probes, &[a.clone(), b.clone()]).await;
+                cases.push((probes.to_vec(), (&[a.clone(), b.clone()]).to_vec()));
                 n_ex += 1;
             }
         }
@@ -487,7 +485,7 @@ fn main() {
             }
             for b in &second {
                 for c in &third {
-                    run_case(&mut w, &probes, &[a.clone(), b.clone(), c.clone(), "P:k".into(), "R".into()]).await;
+                    cases.push((probes.to_vec(), (&[a.clone(), b.clone(), c.clone(), "P:k".into(), "R".into()]).to_vec()));
                     n_ex += 1;
                 }
             }
@@ -497,7 +495,7 @@ fn main() {
             if !a.contains(":k") || i % (if args.thorough() { 1 } else { 7 }) != 0 {
                 continue;
             }
-            run_case(&mut w, &probes, &[second[i % second.len()].clone(), format!("C{}", a)]).await;
+            cases.push((probes.to_vec(), (&[second[i % second.len()].clone(), format!("C{}", a)]).to_vec()));
             n_ex += 1;
         }
         w.stats.add("exhaustive_histories", n_ex);
@@ -525,10 +523,10 @@ fn main() {
                                         format!("{}:{}:k:{}", kind, src, items),
                                     ];
                                     let pr = vec![early, late, heard, mk(b0 + 6, 0, 1), mk(b0 + 6, 0, 2)];
-                                    run_case(&mut w, &pr, &toks).await;
+                                    cases.push((pr.to_vec(), (&toks).to_vec()));
                                     toks.push("R".into());
                                     toks.push(format!("d:{}:{:x}:{:x}:k", src, idb, mk(b0 + 6, 0, origin_b)));
-                                    run_case(&mut w, &pr, &toks).await;
+                                    cases.push((pr.to_vec(), (&toks).to_vec()));
                                     n_span += 2;
                                 }
                             }
@@ -542,15 +540,25 @@ fn main() {
         for _ in 0..n_cut {
             let mut pr = Vec::new();
             let toks = cutoff_history(&mut rng, &mut pr);
-            run_case(&mut w, &pr, &toks).await;
+            cases.push((pr.to_vec(), (&toks).to_vec()));
         }
         let n_random = if args.thorough() { 40_000 } else { 4_000 };
         for _ in 0..n_random {
             let mut pr = Vec::new();
             let b = *rng.pick(&[2u64, 300, base]);
             let toks = random_history(&mut rng, b, &mut pr, args.extra.get("focus").map(|f| f == "c07").unwrap_or(false));
-            run_case(&mut w, &pr, &toks).await;
+            cases.push((pr.to_vec(), (&toks).to_vec()));
         }
-    });
+        }
+    }
+    for chunk in cases.chunks(1500) {
+        let rt = tokio::runtime::Builder::new_current_thread().enable_all().start_paused(true).build().unwrap();
+        rt.block_on(async {
+            for (pr, toks) in chunk {
+                run_case(&mut w, pr, toks).await;
+            }
+        });
+        drop(rt);
+    }
     w.finish(&[]);
 }
